@@ -56,3 +56,25 @@ Proof.
   rewrite forallb_forall in H. intros f c Hx. specialize (H (f, c) Hx). unfold wrapper_header in H. simpl in H.
   apply orb_true_iff in H. rewrite !String.eqb_eq in H. exact H.
 Qed.
+
+(* the translator is not blind: it sees the seven default callbacks' libc calls, the VARR resize functions and the
+   callback uses of the wrapper headers (otherwise the three facts above would hold vacuously) *)
+Lemma sites_seen :
+  (forall x, In x allowed_direct -> In x direct_sites) /\ realloc_callers <> [] /\
+  (forall c, In c ["malloc"; "calloc"; "realloc"; "free"] -> In ("mir-alloc.h", c) callback_uses) /\
+  (forall c, In c ["mem_map"; "mem_unmap"; "mem_protect"] -> In ("mir-code-alloc.h", c) callback_uses).
+Proof.
+  assert (H1 : forallb (fun x => existsb (site_eqb x) direct_sites) allowed_direct = true) by (vm_compute; reflexivity).
+  assert (H3 : forallb (fun c => existsb (fun y => String.eqb (fst y) "mir-alloc.h" && String.eqb (snd y) c) callback_uses)
+                       ["malloc"; "calloc"; "realloc"; "free"] = true) by (vm_compute; reflexivity).
+  assert (H4 : forallb (fun c => existsb (fun y => String.eqb (fst y) "mir-code-alloc.h" && String.eqb (snd y) c) callback_uses)
+                       ["mem_map"; "mem_unmap"; "mem_protect"] = true) by (vm_compute; reflexivity).
+  rewrite forallb_forall in H1, H3, H4.
+  split; [|split; [exact realloc_callers_nonempty|split]].
+  - intros x Hx. specialize (H1 x Hx). apply existsb_exists in H1. destruct H1 as (y & Hy & E).
+    apply site_eqb_eq in E. subst. exact Hy.
+  - intros c Hc. specialize (H3 c Hc). apply existsb_exists in H3. destruct H3 as ([f c'] & Hy & E).
+    simpl in E. apply andb_true_iff in E. destruct E as [E1 E2]. apply String.eqb_eq in E1, E2. subst. exact Hy.
+  - intros c Hc. specialize (H4 c Hc). apply existsb_exists in H4. destruct H4 as ([f c'] & Hy & E).
+    simpl in E. apply andb_true_iff in E. destruct E as [E1 E2]. apply String.eqb_eq in E1, E2. subst. exact Hy.
+Qed.
